@@ -396,7 +396,20 @@ def main(argv):
     os.makedirs(BUILD, exist_ok=True)
     os.makedirs(EVID, exist_ok=True)
     spec = PROPS[pid]
-    units = unit_closure(spec['units'])
+    # the units of the properties this one depends on are verified too (their contracts carry it)
+    dep_units = list(spec['units'])
+    seen_p = {pid}
+    todo_p = [pid]
+    while todo_p:
+        q_ = todo_p.pop()
+        for d_ in PROPS.get(q_, {}).get('depends', []):
+            if d_ not in seen_p:
+                seen_p.add(d_)
+                todo_p.append(d_)
+                for u_ in PROPS.get(d_, {}).get('units', []):
+                    if u_ not in dep_units:
+                        dep_units.append(u_)
+    units = unit_closure(dep_units)
     rlimit = spec.get('rlimit', 30)
     runs = {}
     with cf.ThreadPoolExecutor(max_workers=8) as ex:
@@ -415,7 +428,17 @@ def main(argv):
             cls[u]['notes'].append('retried with rlimit x4')
 
     # ---- collect function metadata for this property
-    own_fns = []       # fns tagged with this property
+    # functions this property rests on: those tagged with it, and those tagged with a property it
+    # depends on (verification is modular: a callee whose own contract fails no longer carries this one)
+    dep_props = {pid}
+    todo = [pid]
+    while todo:
+        q = todo.pop()
+        for d_ in PROPS.get(q, {}).get('depends', []):
+            if d_ not in dep_props:
+                dep_props.add(d_)
+                todo.append(d_)
+    own_fns = []       # fns tagged with this property (or one it depends on)
     all_meta = []
     for u in units:
         if runs[u].asm is None:
@@ -423,7 +446,7 @@ def main(argv):
         for m in runs[u].asm.meta:
             if m.get('unit') == u and m['mode'] != 'imported':
                 all_meta.append(m)
-                if pid in m.get('props', []):
+                if dep_props & set(m.get('props', [])):
                     own_fns.append(m)
     # thorough: seeds / half rlimit stability, no-cheating where clean
     stability = []
@@ -552,8 +575,9 @@ def main(argv):
             ms = sum(fb[k]['time_ms'] for k in hit)
             n_ob = 1 + len([c for c in m['clauses'] if c['kw'] == 'ensures']) + m['n_invariants']
             row = {'item': m['path'], 'unit': u, 'sha256': m['sha256'][:16], 'mode': 'proved' if (m['mode'] == 'verify' and ok) else ('assumed' if m['mode'] == 'assumed' else ('imported' if m['mode'] == 'imported' else 'failed')),
-                   'smt_ms': ms, 'obligations': n_ob, 'tagged': pid in m.get('props', [])}
-            if pid in m.get('props', []):
+                   'smt_ms': ms, 'obligations': n_ob, 'tagged': pid in m.get('props', []),
+                   'relied_on_via': sorted((dep_props - {pid}) & set(m.get('props', [])))}
+            if dep_props & set(m.get('props', [])):
                 fn_rows.append(row)
                 if m['mode'] == 'verify':
                     obligations += n_ob
